@@ -32,11 +32,41 @@ package filesystem
 //gvc:  ensures meta: forall(a, 0, len(idx.Entries), idx.Entries[a] != nil ==> result.Entries[a].Mode == idx.Entries[a].Mode && result.Entries[a].Size == idx.Entries[a].Size && result.Entries[a].Stage == idx.Entries[a].Stage && result.Entries[a].SkipWorktree == idx.Entries[a].SkipWorktree && result.Entries[a].IntentToAdd == idx.Entries[a].IntentToAdd)
 //gvc:  ensures name: forall(a, 0, len(idx.Entries), idx.Entries[a] != nil ==> same_string(result.Entries[a].Name, idx.Entries[a].Name))
 //gvc:  ensures untouched: forall(a, 0, len(idx.Entries), idx.Entries[a] == old(idx.Entries[a]))
+//gvc:  ensures extsep: (result.Cache == nil || result.Cache != idx.Cache) && (result.ResolveUndo == nil || result.ResolveUndo != idx.ResolveUndo) && (result.EndOfIndexEntry == nil || result.EndOfIndexEntry != idx.EndOfIndexEntry)
+//gvc:  ensures extkept: (result.Cache == nil) == (idx.Cache == nil) && (result.ResolveUndo == nil) == (idx.ResolveUndo == nil) && (result.EndOfIndexEntry == nil) == (idx.EndOfIndexEntry == nil)
+//gvc:end
+
+// Copies of the index extensions: a fresh object exactly when there is one to
+// copy (coarse: slices.Clone / maps.Clone are abstracted, so only the identity
+// of the copy is stated, not its content).
+//gvc:func copyTree
+//gvc:  props C20
+//gvc:  theory int
+//gvc:  opt coarse
+//gvc:  opt frame args
+//gvc:  ensures fresh: (result == nil) == (t == nil) && (result == nil || result != t)
+//gvc:end
+
+//gvc:func copyResolveUndo
+//gvc:  props C20
+//gvc:  theory int
+//gvc:  opt coarse
+//gvc:  opt frame args
+//gvc:  ensures fresh: (result == nil) == (ru == nil) && (result == nil || result != ru)
+//gvc:end
+
+//gvc:func copyEndOfIndexEntry
+//gvc:  props C20
+//gvc:  theory int
+//gvc:  opt coarse
+//gvc:  opt frame args
+//gvc:  ensures fresh: (result == nil) == (e == nil) && (result == nil || result != e)
+//gvc:  ensures same: e != nil ==> result.Offset == e.Offset && result.Hash == e.Hash
 //gvc:end
 
 // The cache holds one index object (#held, nil when empty). Interface
-// contract of IndexCache (trusted: statIndexCache is six lines of field
-// assignments under a mutex and is not followed here).
+// contract of IndexCache (trusted as an interface contract; the default
+// implementation statIndexCache is under contract further down).
 //gvc:ghost IndexCache.held int
 
 //gvc:func IndexCache.Set
